@@ -126,6 +126,12 @@ def runC16 (line : String) : String :=
                 match col with
                 | none => "-"
                 | some c =>
+                  -- The model resizes in exact rational arithmetic with one final rounding (`Kernel.Normalised`);
+                  -- the code accumulates in binary32. For 8-bit data, and for sources of at most 256 pixels per
+                  -- side, the two agree on every case tried; beyond that a level made from the source averages more
+                  -- taps than binary32 carries exactly for 16-bit data (finding F16) and the model makes no
+                  -- prediction (`?`) — the oracle judges those cases alone.
+                  if (match p with | Mip.Prec.u8 => false | _ => true) && decide (max w h > 256) then "?" else
                   let src : Img := ⟨w, h, (c.take nch).map fun v => List.replicate (w * h) (rawToRat p v)⟩
                   let levels := runPlan (resizeImg pointKernel f p sa) src pl []
                   if levels.isEmpty then "-" else constToken p c nch levels
